@@ -168,7 +168,7 @@ def run(ctx: Ctx) -> None:
             ev = tr[at - 1] if 0 < at <= len(tr) else None
             ctx.violation({"action": ev["a"] if ev else "?", "field": "trace-step"}, {"trace": tr[:at], "failed_at": at},
                           "a step of BiMap!Next ending in the logged state", ev, clause="Trace_BiMap!TNext", leg="C2S")
-        if r3.violated:
+        if r3.violated and not rej:
             ctx.violation({"action": "?", "field": r3.violated}, {"stdout": r3.stdout[-2000:]}, clause=r3.violated, leg="C2S")
         ctx.sample({"c2s_trace_prefix": traces[0][:4]})
     finally:
